@@ -22,7 +22,9 @@ ORIG_PROPS = ["C01", "C02", "C03", "C04", "C08", "C10", "C11", "C12", "C15", "C1
 
 
 def run_check(prop, src, repo="/repo", scale="1"):
-    env = dict(os.environ, HUGR_SRC=src, HUGR_REPO=repo, VERIF_SCALE=scale)
+    # scratch output directories: evidence files under /verif are only ever written from /repo's own tree
+    env = dict(os.environ, HUGR_SRC=src, HUGR_REPO=repo, VERIF_SCALE=scale,
+               VERIF_SCRATCH=os.path.join(tempfile.gettempdir(), "sensitivity-out"))
     p = subprocess.run([os.path.join(VERIF, "check"), prop], env=env, capture_output=True, text=True, timeout=900)
     viol = [l for l in p.stdout.splitlines() if l.startswith("VIOLATION")]
     keys = [l.split()[1] for l in p.stdout.splitlines() if l.strip().startswith("violation ")]
